@@ -151,18 +151,62 @@ def flatten_counts(structure, mult=1):
     return out
 
 
+class IdMap:
+    """atom -> count keyed by object identity (the oracle must not depend on how atoms compare or hash)"""
+    def __init__(self):
+        self._k, self._v = [], []
+
+    def _idx(self, a):
+        for i, k in enumerate(self._k):
+            if k is a:
+                return i
+        return -1
+
+    def __contains__(self, a): return self._idx(a) >= 0
+    def __getitem__(self, a):
+        i = self._idx(a)
+        if i < 0:
+            raise KeyError(a)
+        return self._v[i]
+
+    def __setitem__(self, a, v):
+        i = self._idx(a)
+        if i < 0:
+            self._k.append(a)
+            self._v.append(v)
+        else:
+            self._v[i] = v
+
+    def __delitem__(self, a):
+        i = self._idx(a)
+        del self._k[i], self._v[i]
+
+    def __iter__(self): return iter(list(self._k))
+    def __len__(self): return len(self._k)
+    def keys(self): return list(self._k)
+    def values(self): return list(self._v)
+    def items(self): return list(zip(self._k, self._v))
+    def get(self, a, default=None): return self[a] if a in self else default
+
+
 def merge_counts(pairs):
-    d = {}
+    d = IdMap()
     for c, a in pairs:
         d[a] = d[a] + c if a in d else c
     return d
+
+
+def same_atom_sets(got, want):
+    """got: the library's atoms dict; want: IdMap.  Same atoms, by identity, with nothing merged or extra."""
+    gk = list(got.keys())
+    return len(gk) == len(want) and all(any(g is w for g in gk) for w in want)
 
 
 def pool(T):
     """named atoms of a table used by the harness shapes"""
     return dict(X=T.Fe, Xi=T.Fe[56], D=T.D, Xq=T.Fe.ion[2], Xiq=T.Fe[56].ion[3], Y=T.O, Yi=T.O[18],
                 Z=T.Si, H=T.H, H1=T.H[1], W=T.Ni, Wi=T.Ni[58], C=T.C, T=T.T, Yq=T.O.ion[-2], Hq=T.H.ion[1],
-                Dq=T.D.ion[1], N=T.N, Ca=T.Ca)
+                Dq=T.D.ion[1], N=T.N, Ca=T.Ca, Xq3=T.Fe.ion[3], Xjq=T.Fe[54].ion[3], Xj=T.Fe[54])
 
 
 def sym_pool(E, tag, keys, neutron=True, absorbing=True, natural=True, density=False):
